@@ -1,0 +1,62 @@
+//go:build verif
+
+package perio
+
+// Machine-checked contracts (comment-only; read by /verif/engine, never compiled into the binary).
+// Periodic reporting (C15).  The server owns a table period -> group, a group holds SEID -> set of URR ids and the
+// ticker of that period.  perioWF: every group is complete (maps, ticker, stop channel), filed under its own period,
+// and never empty - so a period whose last URR went away has no group and hence no ticker.
+
+//@ pred groupWF(pg *PERIOGroup) = pg != nil && pg.urrids != nil && pg.ticker != nil && pg.stopCh != nil && !closed(pg.stopCh) && ownerOf(pg.stopCh) == pg
+//@ pred perioWF(s *Server) = s != nil && s.perioList != nil && s.evtCh != nil &&
+//@      (forall p time.Duration :: p in s.perioList ==> groupWF(s.perioList[p]) && s.perioList[p].period == p)
+//@ pure func registered(s *Server, p time.Duration, sd uint64, u uint32) bool = p in s.perioList && sd in s.perioList[p].urrids && u in s.perioList[p].urrids[sd]
+
+//@ func (pg *PERIOGroup) newTicker(wg *sync.WaitGroup, evtCh chan Event) (err error)
+//@   requires pg != nil && wg != nil && (pg.ticker == nil ==> pg.period > 0)
+//@   ensures [set]  err == nil ==> old(pg.ticker == nil) && pg.ticker != nil && pg.stopCh != nil && fresh(pg.stopCh) && !closed(pg.stopCh)
+//@   ensures [busy] old(pg.ticker != nil) ==> err != nil && pg.ticker == old(pg.ticker) && pg.stopCh == old(pg.stopCh)
+//@   modifies pg.ticker, pg.stopCh
+//@   owns pg.stopCh by pg when err == nil
+//@   serves C15 C07
+
+//@ func (pg *PERIOGroup) stopTicker()
+//@   requires pg != nil && pg.stopCh != nil && !closed(pg.stopCh)
+//@   ensures [closed] closed(pg.stopCh)
+//@   modifies chanstate(pg.stopCh)
+//@   serves C15 C07
+
+// One event at a time.  A-EVT (assumed of the producers, see the forwarder's CreateURR contract): an ADD event carries
+// a positive period.  What is proved per event kind:
+//   ADD     the (period, SEID, URR) of the event is registered afterwards; a new group gets a ticker of that period
+//   DEL     the URR is removed from the first group that holds it; a SEID without URRs and a group without SEIDs are
+//           dropped, and the dropped group's ticker is stopped (perioWF: no empty group survives)
+//   TIMEOUT queryURR is asked for the group of the event's period; each result is flagged PERIO and handed to the
+//           handler under the SEID it was returned for
+//   CLOSE   every ticker is stopped, the table emptied, the loop left
+//@ func (s *Server) Serve(wg *sync.WaitGroup)
+//@   requires perioWF(s) && wg != nil && s.handler != nil && s.queryURR != nil
+//@   modifies *
+//@   serves C15 C07
+//@   loop range(s.evtCh):
+//@     invariant [wf] perioWF(s) && s.handler != nil && s.queryURR != nil
+//@   loop range(s.perioList):
+//@     invariant [wf] perioWF(s)
+//@   loop range(s.perioList)#2:
+//@     invariant [wf] perioWF(s)
+//@   loop range(usars):
+//@     modifies usars[_]
+//@     invariant [n]    len(rpts) == idx
+//@     invariant [flag] forall j int :: 0 <= j && j < idx ==> usars[j].USARTrigger.Flags & report.USAR_TRIG_PERIO != 0
+//@   at call newTicker:
+//@     assume [A-EVT] e.period > 0
+//@     assert [new]   !(e.period in s.perioList) && recv.period == e.period && recv.ticker == nil && arg1 == s.evtCh
+//@   at call stopTicker#1:
+//@     assert [empty] len(recv.urrids) == 0 && period in s.perioList && recv == s.perioList[period]
+//@   at call stopTicker#2:
+//@     assert [all]   period in s.perioList && recv == s.perioList[period]
+//@   at call s.queryURR:
+//@     assert [group] e.period in s.perioList
+//@   at call NotifySessReport:
+//@     assert [seid]  arg0.SEID == seid && len(arg0.Reports) == len(usars)
+//@     assert [perio] forall j int :: 0 <= j && j < len(usars) ==> usars[j].USARTrigger.Flags & report.USAR_TRIG_PERIO != 0
